@@ -30,6 +30,9 @@ def _contains_meet(e: ast.AST, a: str, b: str) -> bool:
 
 
 def check(ck: Checker) -> None:
+    from . import round4 as _r4
+
+    _r4.hashinfo_identity(ck, "C04.guard")
     prog, res = ck.prog, ck.res
     ck.decided = [
         "C04.order: inside one directory's iteration the directory object is added only after that directory's files were added, never before",
